@@ -8,8 +8,8 @@ for mp in sorted(glob.glob(os.path.join(V, "seeded", "*", "meta.json"))):
     m = json.load(open(mp)); sid = os.path.basename(os.path.dirname(mp))
     ck = m.get("checks", {})
     if m.get("benign"):
-        brows.append((sid, m.get("property", "?"), (m.get("summary") or "")[:260].replace("\n", " ").replace("|", "/"), "yes" if not ck.get("caught_by") else "NO: " + ", ".join(ck.get("caught_by")),
-                      m.get("corrected", "")))
+        brows.append((sid, m.get("property", "?"), (m.get("summary") or "")[:260].replace("\n", " ").replace("|", "/"), "yes" if not ck.get("caught_by") else "NO: " + ", ".join(f"{p_} (rc {(ck.get('reports') or {}).get(p_) and ('2' if any('ANALYSIS-ERROR' in l_ for l_ in ck['reports'][p_]) else '1') or '?'})" for p_ in ck.get("caught_by")),
+                      m.get("corrected", "") or m.get("limitation", "")))
         continue
     rules = []
     for p, ls in (ck.get("reports") or {}).items():
@@ -27,7 +27,7 @@ with open(os.path.join(V, "seeded", "README.md"), "w") as f:
     for r in rows:
         f.write("| " + " | ".join(r) + " |\n")
     f.write("\n## Behaviour-preserving refactors (must stay silent)\n\nWritten by the same kind of sub-agent (property text only) as realistic maintenance changes that keep the property; "
-            "`check.py` passes before and after. Every check must exit 0 with the patch applied.\n\n| id | property | refactor | all 19 checks silent | what had to be corrected in the checks |\n|---|---|---|---|---|\n")
+            "`check.py` passes before and after. Every check must exit 0 with the patch applied; the four rows that say NO are the limitations listed in DESIGN §7.2 (sixth wave).\n\n| id | property | refactor | all 19 checks silent | what had to be corrected in the checks |\n|---|---|---|---|---|\n")
     for r in brows:
         f.write("| " + " | ".join(r) + " |\n")
 print(len(rows), "seeds", len(brows), "benign")
